@@ -34,6 +34,15 @@ def run(chk):
             # distinct paths per cell, as the property quantifies
             for i, img in enumerate(c["pool"]):
                 img["path"] = "%s-%d" % (img["path"], i)
+            # ... but two different images in different cells may carry the same path string
+            if rng.random() < 0.4:
+                where = {}
+                for v, a, i in c["ops"]:
+                    where.setdefault(i, set()).add((v, a))
+                pairs = [(i, j) for i in where for j in where if i < j and not (where[i] & where[j])]
+                if pairs:
+                    i, j = rng.choice(pairs)
+                    c["pool"][j]["path"] = c["pool"][i]["path"]
             cases.append(c)
     cases = cases[:N[chk.tier]]
 
@@ -63,6 +72,6 @@ def run(chk):
     return chk.finish(
         rule="manifests built by 1-9 add calls from pools of 2-6 valid images (all types/formats, null/non-empty volume ids and "
              "implanted md5, 1-2 checksum types, sizes > 2^32, unified images with additional variants, the same object filed in "
-             "several cells), distinct paths; written text, every attribute of every re-read image per cell, compose section and "
+             "several cells), distinct paths within a cell (different images in different cells may share a path string); written text, every attribute of every re-read image per cell, compose section and "
              "second write compared (text byte for byte); non-trivial = at least two cells",
         trusted=TRUSTED)
